@@ -245,7 +245,7 @@ def pass_case(ctx, rng, k):
 
 def run(ctx):
     fold_cases(ctx)
-    for k in range(ctx.n(48, 240)):
+    for k in range(ctx.n(48, 2400)):
         pass_case(ctx, ctx.rng, k)
     ctx.sample({"sun_max_dev_deg": ctx.extra.get("sun_max_dev_deg"), "sat_zenith_max_dev_deg": ctx.extra.get("sat_zenith_max_dev_deg")})
 
